@@ -109,6 +109,13 @@ def _load_module(moddir, version):
     return importlib.import_module(MODNAME)
 
 
+def _load_module_noreload(moddir):
+    if moddir not in sys.path:
+        sys.path.insert(0, moddir)
+    importlib.invalidate_caches()
+    return importlib.import_module(MODNAME)
+
+
 def _workload(spec, location, moddir):
     """Runs in a forked child (armed)."""
     import joblib
